@@ -14,10 +14,12 @@ def gen_calls(rng, n):
         elif r < 0.35:
             out.append("U")
         elif r < 0.9:
-            out.append("T%d" % rng.choice([1, 1, 2, 2, 3, 3, 4, 5, 6, 7, 8, 9, 16, 17, 31, 32, 33, 63, 64]))
+            # T: no current task, C: the first offered task is current, Y: it is current and has just yielded -- the random
+            # scheduler's choice does not depend on either (the model's rs_next_task does not even take them)
+            out.append("%s%d" % (rng.choice("TTCY"), rng.choice([1, 1, 2, 2, 3, 3, 4, 5, 6, 7, 8, 9, 16, 17, 31, 32, 33, 63, 64])))
         else:
             k = rng.randint(1, 6)
-            out.append("T:" + ".".join(map(str, sorted(rng.sample(range(64), k)))))
+            out.append(rng.choice("TTCY") + ":" + ".".join(map(str, sorted(rng.sample(range(64), k)))))
     return out
 
 
@@ -39,6 +41,25 @@ def run(tier):
     mo, io, mism = ctx.differential("sched", cases)
     ctx.log("random scheduler call sequences: %d cases, %d model/impl mismatches" % (len(cases), len(mism)))
     nfail = 0
+    # the seed given through SHUTTLE_RANDOM_SEED (the route printed with a failing seed) replaces the constructor's argument:
+    # the scheduler then is the model's scheduler for that seed
+    ecases, emodel = [], []
+    for k in range(60 if tier == "quick" else 600):
+        env = rng.choice(SEEDS) if rng.random() < 0.3 else rng.getrandbits(64)
+        iters = rng.choice([1, 2, 3, 5])
+        calls = ",".join(["E"] + gen_calls(rng, rng.randint(5, 40)))
+        ecases.append("randomenv %d %d %d %s" % (env, rng.getrandbits(64), iters, calls))
+        emodel.append("random %d %d %s" % (env, iters, calls))
+    eio = ctx.run_impl("sched", ecases)
+    emo = ctx.run_model("sched", emodel)
+    ctx.evaluations += len(ecases)
+    for c, a, b in zip(ecases, eio, emo):
+        if a != b:
+            nfail += 1
+            if nfail <= 3:
+                ctx.violation({"layer": "sched", "cases": [c], "implementation_answer": a[:1200], "model_answer": b[:1200],
+                               "why": "with SHUTTLE_RANDOM_SEED set the scheduler does not behave as the scheduler built from that seed (executions, choices or draws differ)"})
+    ctx.cov["env_seed_cases"] = len(ecases)
     # oracle 1 (same seed, same run): run every case a second time on the crate
     io2 = ctx.run_impl("sched", cases)
     for k in range(len(cases)):
